@@ -964,10 +964,25 @@ pseudo_tcp_socket_notify_clock(PseudoTcpSocket *self)
    * FIXME: This should probably actually compare a timestamp before
    * operating. */
   if (priv->support_fin_ack && priv->state == PSEUDO_TCP_LAST_ACK) {
+    SSegment *last = g_queue_peek_tail (&priv->slist);
+
     DEBUG (PSEUDO_TCP_DEBUG_NORMAL,
         "Notified clock in LAST-ACK state; resending FIN segment.");
-    queue_fin_message (self);
-    attempt_send (self, sfFin);
+    if (last != NULL && (last->flags & FLAG_FIN) && last->xmit > 0) {
+      /* The FIN that has not been ACKed yet is still at the end of the send
+       * list: resend that very segment. Queueing one more FIN on every
+       * notification would take up one more sequence number each time,
+       * which the ACK processing does not account for. */
+      int transmit_status = transmit (self, last, now);
+
+      if (transmit_status != 0) {
+        closedown (self, transmit_status, CLOSEDOWN_LOCAL);
+        return;
+      }
+    } else {
+      queue_fin_message (self);
+      attempt_send (self, sfFin);
+    }
   }
 
   // Check if it's time to retransmit a segment
